@@ -61,13 +61,46 @@ def cfg(n):
     return cfg_basic(PROP, n)
 
 
+def cfg_pending():
+    """A non-initial start state: A and B have INBOX(3) selected and B has expunged message 2, so the
+    quiet session A holds a pending EXPUNGE: everything found for it from now on goes through its
+    notification queue instead of being pushed at once."""
+    from .common import cfg_basic
+
+    c = dict(cfg_basic(PROP, 3))
+    c["name"] = "c01-pending-expunge"
+    c["prelude"] = [{"s": "A", "op": "select", "m": "INBOX"}, {"s": "B", "op": "select", "m": "INBOX"},
+                    {"s": "B", "op": "store", "set": "2", "mode": "+", "flags": "\\Deleted", "silent": True}, {"s": "B", "op": "expunge"}]
+    return c
+
+
+def alphabet_pending(tier):
+    A, B = "A", "B"
+    return [
+        {"s": B, "op": "append", "m": "INBOX"},
+        {"s": "env", "op": "deliver", "m": "INBOX"},
+        {"s": B, "op": "noop"},
+        {"s": "env", "op": "poll", "dt": 21.0},
+        {"s": B, "op": "del", "set": "*"},
+        {"s": B, "op": "store", "set": "1", "mode": "+", "flags": "\\Flagged"},
+        {"s": B, "op": "copy", "set": "1", "dst": "INBOX"},
+        {"s": A, "op": "noop"},
+        {"s": A, "op": "fetch", "set": "1:*", "items": "(UID)", "uid": True},
+        {"s": A, "op": "fetch", "set": "*", "items": "(UID)"},
+        {"s": A, "op": "idle"},
+        {"s": A, "op": "done"},
+    ]
+
+
 def run(tier, seed, jobs) -> Result:
     from .hcommon import run_h
 
     plans = [(2, 4), (0, 3)] if tier == "quick" else [(2, 5), (3, 4), (0, 4)]
     return run_h(
         PROP, RULES,
-        [{"cfg_ref": ("vf.props.c01", "cfg", [n]), "alphabet": alphabet(tier), "depth": d, "label": f"INBOX({n})"} for n, d in plans],
+        [{"cfg_ref": ("vf.props.c01", "cfg", [n]), "alphabet": alphabet(tier), "depth": d, "label": f"INBOX({n})"} for n, d in plans]
+        + [{"cfg_ref": ("vf.props.c01", "cfg_pending", []), "alphabet": alphabet_pending(tier), "depth": 4 if tier == "quick" else 6,
+            "label": "INBOX(3), quiet session A holds a pending EXPUNGE"}],
         ("C01",), jobs, seed,
         [
             "2 sessions (A read-write, B read-write/EXAMINE/IDLE), INBOX with 0 or 2 (thorough: 3) messages, one destination mailbox",
